@@ -72,6 +72,7 @@ theorem local_recvd (cfg : Cfg) (s : St) (x : Act) (h : localAct x = true) :
   | peerEof => simp [localAct] at h
   | peerClose t => simp [localAct] at h
   | requestFailed t => simp [localAct] at h
+  | emitFail t => simp [localAct] at h
 
 /-- handlers never write to the wire themselves (they make the transport thread hold the reply) -/
 theorem handler_wire (cfg : Cfg) (s : St) (t code : Nat) (m : Msg) :
@@ -128,10 +129,11 @@ structure PInv (W0 : Nat) (y : Sys) : Prop where
   rb : AInv y.b
   l1 : y.b.linked = true → dataSum y.a.wire = dataSum y.ab + y.b.recvd
   l2 : y.a.linked = true → adjSum y.b.wire + W0 = adjSum y.ba + y.a.granted
+  la : y.a.leaked = 0      -- the transports of the two-sided model never fail a write
 
 theorem pstep_pinv (cfg : Cfg) (hc : cfg.creditDiscarded = true) (W0 : Nat) (y : Sys) (p : PAct)
     (hi : PInv W0 y) : PInv W0 (pstep cfg y p) := by
-  obtain ⟨wa, sb, eb, rb, l1, l2⟩ := hi
+  obtain ⟨wa, sb, eb, rb, l1, l2, la⟩ := hi
   cases p with
   | left x =>
     simp only [pstep]; split
@@ -139,7 +141,8 @@ theorem pstep_pinv (cfg : Cfg) (hc : cfg.creditDiscarded = true) (W0 : Nat) (y :
       simp only [sideStep]
       obtain ⟨lw, hw⟩ := step_wire cfg y.a x
       have hd : (step cfg y.a x).wire.drop y.a.wire.length = lw := by rw [hw]; simp
-      refine ⟨step_winv cfg _ x wa, sb, eb, rb, ?_, ?_⟩
+      refine ⟨step_winv cfg _ x wa, sb, eb, rb, ?_, ?_,
+        (step_leaked cfg _ x (by intro t e; subst e; simp [localAct] at hl)).trans la⟩
       · intro hb
         have := l1 hb
         simp only at *
@@ -148,14 +151,15 @@ theorem pstep_pinv (cfg : Cfg) (hc : cfg.creditDiscarded = true) (W0 : Nat) (y :
         have := l2 ((step_frame cfg y.a x).2.2.2.1 ha)
         simp only at *
         rw [local_granted cfg _ x hl]; exact this
-    · exact ⟨wa, sb, eb, rb, l1, l2⟩
+    · exact ⟨wa, sb, eb, rb, l1, l2, la⟩
   | right x =>
     simp only [pstep]; split
     · rename_i hl
       simp only [sideStep]
       obtain ⟨lw, hw⟩ := step_wire cfg y.b x
       have hd : (step cfg y.b x).wire.drop y.b.wire.length = lw := by rw [hw]; simp
-      refine ⟨wa, step_sofar cfg _ x sb, step_eqinv cfg hc _ x eb, step_ainv cfg _ x rb, ?_, ?_⟩
+      refine ⟨wa, step_sofar cfg _ x sb, step_eqinv cfg hc _ x (by intro t e; subst e; simp [localAct] at hl) eb,
+        step_ainv cfg _ x rb, ?_, ?_, la⟩
       · intro hb
         have := l1 ((step_frame cfg y.b x).2.2.2.1 hb)
         simp only at *
@@ -164,18 +168,19 @@ theorem pstep_pinv (cfg : Cfg) (hc : cfg.creditDiscarded = true) (W0 : Nat) (y :
         have := l2 ha
         simp only at *
         rw [hd, hw, adjSum_append, adjSum_append]; omega
-    · exact ⟨wa, sb, eb, rb, l1, l2⟩
+    · exact ⟨wa, sb, eb, rb, l1, l2, la⟩
   | deliverAB t code =>
     simp only [pstep]
     split
-    · exact ⟨wa, sb, eb, rb, l1, l2⟩
+    · exact ⟨wa, sb, eb, rb, l1, l2, la⟩
     · rename_i m rest hab
       split
       · rename_i hid
         unfold deliverTo
         split
         · rename_i hlk
-          refine ⟨wa, step_sofar cfg _ _ sb, step_eqinv cfg hc _ _ eb, step_ainv cfg _ _ rb, ?_, ?_⟩
+          refine ⟨wa, step_sofar cfg _ _ sb, step_eqinv cfg hc _ _ (by intro t' e; cases m <;> cases e) eb,
+            step_ainv cfg _ _ rb, ?_, ?_, la⟩
           · intro _
             have := l1 hlk
             simp only at *
@@ -186,20 +191,21 @@ theorem pstep_pinv (cfg : Cfg) (hc : cfg.creditDiscarded = true) (W0 : Nat) (y :
             simp only at *
             rw [handler_wire]; exact this
         · rename_i hlk
-          refine ⟨wa, sb, eb, rb, ?_, l2⟩
+          refine ⟨wa, sb, eb, rb, ?_, l2, la⟩
           intro hb; exact absurd hb hlk
-      · exact ⟨wa, sb, eb, rb, l1, l2⟩
+      · exact ⟨wa, sb, eb, rb, l1, l2, la⟩
   | deliverBA t code =>
     simp only [pstep]
     split
-    · exact ⟨wa, sb, eb, rb, l1, l2⟩
+    · exact ⟨wa, sb, eb, rb, l1, l2, la⟩
     · rename_i m rest hba
       split
       · rename_i hid
         unfold deliverTo
         split
         · rename_i hlk
-          refine ⟨step_winv cfg _ _ wa, sb, eb, rb, ?_, ?_⟩
+          refine ⟨step_winv cfg _ _ wa, sb, eb, rb, ?_, ?_,
+            (step_leaked cfg _ _ (by intro t' e; cases m <;> cases e)).trans la⟩
           · intro hb
             have := l1 hb
             simp only at *
@@ -210,9 +216,9 @@ theorem pstep_pinv (cfg : Cfg) (hc : cfg.creditDiscarded = true) (W0 : Nat) (y :
             rw [handler_granted, hba] at *
             simp only [adjSum] at this; omega
         · rename_i hlk
-          refine ⟨wa, sb, eb, rb, l1, ?_⟩
+          refine ⟨wa, sb, eb, rb, l1, ?_, la⟩
           intro ha; exact absurd ha hlk
-      · exact ⟨wa, sb, eb, rb, l1, l2⟩
+      · exact ⟨wa, sb, eb, rb, l1, l2, la⟩
 
 theorem prun_pinv (cfg : Cfg) (hc : cfg.creditDiscarded = true) (W0 : Nat) (y : Sys) (ps : List PAct)
     (hi : PInv W0 y) : PInv W0 (prun cfg y ps) := by
@@ -224,7 +230,7 @@ theorem prun_pinv (cfg : Cfg) (hc : cfg.creditDiscarded = true) (W0 : Nat) (y : 
     a→b direction add up to the window b advertised -/
 theorem credits_of_pinv (W0 : Nat) (y : Sys) (hi : PInv W0 y) (ha : y.a.linked = true) (hb : y.b.linked = true)
     (hacc : acct y.b = true) : credits y = W0 := by
-  obtain ⟨wa, _, eb, rb, l1, l2⟩ := hi
+  obtain ⟨wa, _, eb, rb, l1, l2, la⟩ := hi
   have h1 := l1 hb
   have h2 := l2 ha
   have h3 := eb hacc
